@@ -309,6 +309,17 @@ func verifHarnessCrash() {
 	}
 	verifAssert(match, id+".not-a-prefix")
 	verifAssert(db2.Stat().KeyNum == len(db2.ListKeys()), id+".keynum-vs-listkeys")
+	if verifParam("statcheck") == 1 {
+		// the space accounting rebuilt by recovery is exact too (C17's oracle on the recovered database)
+		rm := newVModel(len(kp.keys))
+		for i := range d.found {
+			if d.found[i] {
+				rm.put(i, d.vals[i])
+			}
+		}
+		vCheckStat(db2, opts, rm, id+".recovered-stat")
+		verifReach("recovered-stat-checked")
+	}
 	if verifParam("after") == 1 {
 		// the recovered database keeps working: one more put (or a committed batch), clean restart, same mapping
 		v := []byte{9}
